@@ -331,6 +331,10 @@ var c12InitCfg *[2]uint
 func c12LoginHistory(t *testing.T, out *vfOut, rnd *vfRand, users []webUser, name string, max uint, block time.Duration,
 	n int, script []c12Att) {
 	dir := t.TempDir()
+	// "broken" / "cut": what a botched manual edit of users[].password leaves
+	// behind (empty, truncated stored hash): nobody can log in as these
+	users = append(append([]webUser{}, users...), webUser{Name: "broken", PasswordHash: ""},
+		webUser{Name: "cut", PasswordHash: users[0].PasswordHash[:29]})
 	var ab *authRateLimiter
 	var auth *Auth
 	cfg := c12InitCfg
@@ -450,11 +454,19 @@ func c12LoginHistory(t *testing.T, out *vfOut, rnd *vfRand, users []webUser, nam
 		advance(d)
 		body := fmt.Sprintf(`{"name":%q,"password":%q}`, c12User, c12Pass)
 		if !ok {
-			switch rnd.Intn(3) {
+			switch rnd.Intn(5) {
 			case 0:
 				body = fmt.Sprintf(`{"name":%q,"password":"guess%d"}`, c12User, i)
 			case 1:
 				body = fmt.Sprintf(`{"name":"nobody","password":%q}`, c12Pass)
+			case 2:
+				// an account whose stored hash is empty: no password fits
+				body = fmt.Sprintf(`{"name":"broken","password":%q}`, vfPick(rnd, []string{"", c12Pass, "x"}))
+				classes["login-unusable-hash"] = true
+			case 3:
+				// an account whose stored hash is truncated
+				body = fmt.Sprintf(`{"name":"cut","password":%q}`, vfPick(rnd, []string{"", c12Pass}))
+				classes["login-unusable-hash"] = true
 			default:
 				body = `{"name":"","password":""}`
 			}
